@@ -322,7 +322,13 @@ def handleLine (line : String) : String :=
   match line.splitOn "\t" with
   | op :: hexp :: args =>
     match hexToStr? hexp with
-    | some p => handle op p args
+    | some p =>
+      -- `par`: the model is a function of the text; threads cannot matter
+      if op == "par" then
+        match args with
+        | inner :: rest => if inner == "par" || inner == "time" then "bad-op" else handle inner p rest
+        | [] => "bad-op"
+      else handle op p args
     | none => "bad-op"
   | _ => "bad-op"
 
